@@ -34,6 +34,8 @@ pub enum Op {
     SetOffset { o: usize },
     /// fresh iterator with_offset(o) replacing iterator `it`
     WithOffset { o: usize },
+    /// the consuming `with_offset(o)` applied to the iterator in use: `it = it.with_offset(o)`
+    RebaseWithOffset { o: usize },
     /// advance_to(end of the k-th match (0-based) of the immediately preceding peek_n(n))
     PeekAdvance { n: usize, k: usize },
     SetMode { m: usize },
